@@ -39,6 +39,8 @@ CONSTANTS Splits,       \* set of split names (strings)
                         \* is written): the two deviations only exist to show that C06 can fail (non-vacuity)
           CheckChildren, \* FALSE: the integrity check does not recurse into child lists (only to show C05 can fail)
           NoMkdir,      \* TRUE: directory creation is not modelled as an effect (trace validation mode)
+          MaxAborts,    \* how many multi-writer calls may fail part-way (a writer's function raises)
+          MaxCrashes,   \* how many crashes may be followed by a recovery (a new process opens the directory again)
           MaxMoves,     \* how often the dataset directory may be moved / copied elsewhere (C20)
           CrashOn, ReaderOn
 
@@ -168,7 +170,7 @@ IdleProc == [active |-> FALSE, sess |-> 0, dir |-> <<>>, auto |-> TRUE,
              open |-> [s \in Splits |-> NoShard], oorder |-> <<>>,
              lists |-> [s \in Splits |-> NotLoaded], lorder |-> <<>>,
              nw |-> 0, todo |-> <<>>, state |-> "idle", updated |-> <<>>]
-IdleCtl(u) == [mode |-> "idle", k |-> 0, used |-> u, loc |-> ctl.loc]
+IdleCtl(u) == [mode |-> "idle", k |-> 0, used |-> u, loc |-> ctl.loc, cr |-> ctl.cr, ab |-> ctl.ab]
 
 ShardPath(pr, s, id) == <<s>> \o pr.dir \o <<"sh" \o ToString(id)>>
 LP(pr, s) == <<s>> \o pr.dir
@@ -176,7 +178,7 @@ LP(pr, s) == <<s>> \o pr.dir
 Init == /\ files = <<>> /\ dirs = {}
         /\ mem = NoHandle
         /\ procs = [p \in P |-> IdleProc]
-        /\ ctl = [mode |-> "idle", k |-> 0, used |-> 0, loc |-> 0]
+        /\ ctl = [mode |-> "idle", k |-> 0, used |-> 0, loc |-> 0, cr |-> 0, ab |-> 0]
         /\ nextEx = 1 /\ nextShard = 1 /\ nsess = 0
         /\ wlog = <<>> /\ done = {}
         /\ callerMd = "A"
@@ -358,7 +360,7 @@ MultiBegin(K) ==
                              THEN [IdleProc EXCEPT !.active = TRUE, !.sess = nsess + 1, !.auto = FALSE,
                                                    !.dir = <<WriterNames[ctl.used + p]>>, !.state = "writing"]
                              ELSE procs[p]]
-    /\ ctl' = [mode |-> "multi", k |-> K, used |-> ctl.used + K, loc |-> ctl.loc]
+    /\ ctl' = [mode |-> "multi", k |-> K, used |-> ctl.used + K, loc |-> ctl.loc, cr |-> ctl.cr, ab |-> ctl.ab]
     /\ UNCHANGED <<files, dirs, mem, nextEx, nextShard, wlog, done, callerMd, crashed, failed, rd>>
 
 \* the parent collects get_updated_infos() in argument order and calls write_config (:128-134)
@@ -374,6 +376,18 @@ MultiEnd ==
           /\ failed' = (failed \/ ~wc.ok)
     /\ ctl' = [ctl EXCEPT !.mode = "multiend"]
     /\ UNCHANGED <<nextEx, nextShard, nsess, wlog, done, callerMd, crashed, rd>>
+\* The multi-writer call fails: writer j's function raises after its filler has been closed (writers before it have
+\* finished, later ones were never run / wrote nothing).  The parent never merges: the call raises, the directories
+\* and lists of the writers stay on disk as orphans that nothing references, the session is not committed, and the
+\* program goes on (typically: the call is retried - with fresh writer directories).
+MultiAbort(j) ==
+    /\ Running /\ ctl.mode = "multi" /\ NoTodo /\ j \in 1..ctl.k /\ ctl.ab < MaxAborts
+    /\ \A p \in 1..j : procs[p].state = "finished"
+    /\ \A p \in (j + 1)..ctl.k : procs[p].state = "writing" /\ procs[p].nw = 0
+    /\ procs' = [p \in P |-> IF p = 0 THEN procs[0] ELSE IdleProc]
+    /\ ctl' = [mode |-> "idle", k |-> 0, used |-> ctl.used, loc |-> ctl.loc, cr |-> ctl.cr, ab |-> ctl.ab + 1]
+    /\ UNCHANGED <<files, dirs, mem, nextEx, nextShard, nsess, wlog, done, callerMd, crashed, failed, rd>>
+
 \* workers' process records are forgotten once the parent's effects are on disk
 MultiDone ==
     /\ Running /\ ctl.mode = "multiend" /\ NoTodo
@@ -387,6 +401,17 @@ Crash ==
     /\ CrashOn /\ Running /\ (ctl.mode # "idle" \/ ~NoTodo)
     /\ crashed' = TRUE
     /\ UNCHANGED <<files, dirs, mem, procs, ctl, nextEx, nextShard, nsess, wlog, done, callerMd, failed, rd>>
+
+\* Recovery: the crashed process and everything it held in memory (handle, open shards, pending effects) is gone; a new
+\* process finds the directory as the crash left it (leftover temp files, unlisted shard files, lists that are ahead
+\* of their parents) and may open it and go on writing.  The crashed session never counts as committed.
+Recover ==
+    /\ crashed /\ ~failed /\ ctl.cr < MaxCrashes
+    /\ crashed' = FALSE
+    /\ procs' = [p \in P |-> IdleProc]
+    /\ ctl' = [mode |-> "idle", k |-> 0, used |-> ctl.used, loc |-> ctl.loc, cr |-> ctl.cr + 1, ab |-> ctl.ab]
+    /\ mem' = NoHandle
+    /\ UNCHANGED <<files, dirs, nextEx, nextShard, nsess, wlog, done, callerMd, failed, rd>>
 
 (* ---------------------------------------------------------------------------------------- *)
 (* what a reader sees                                                                       *)
@@ -442,6 +467,11 @@ Check(tbl, fs) ==
 (* ---------------------------------------------------------------------------------------- *)
 (* properties                                                                               *)
 NoSessionFails == ~failed
+\* The exactness / integrity / shard-layout properties speak about histories of successfully completed sessions; after a
+\* crash they are not demanded (a list may be ahead of its parent until the split is written again).  What IS demanded
+\* after a recovery is C06_CrashSafe in every state (nothing committed is lost, only whole accepted examples are read,
+\* nothing twice) and that later sessions do not raise (NoSessionFails).
+Pristine == ctl.cr = 0 /\ ~crashed
 
 \* C04: the metadata tree is exact at quiescent states
 RECURSIVE ExactList(_, _, _)
@@ -471,25 +501,26 @@ C04_ExactAt(fs, tbl) ==
     /\ LET es == AllShardEntries(fs) IN
           /\ \A i \in 1..Len(es) : ~IsBad(es[i])
           /\ NoDupSeq([i \in 1..Len(es) |-> es[i].id])              \* no shard file listed twice
-          /\ ShardFilePaths(fs) \subseteq {es[i].id : i \in 1..Len(es)}   \* none left unlisted
+          /\ (ctl.ab = 0) => ShardFilePaths(fs) \subseteq {es[i].id : i \in 1..Len(es)}   \* none left unlisted
+                                                       \* (a failed multi-writer call leaves unreferenced orphans)
     /\ tbl = fs[InfoPath].splits                                    \* handle = what a fresh open reads
-C04_Exact == Quiescent /\ mem # NoHandle => C04_ExactAt(files, mem)
+C04_Exact == Pristine /\ Quiescent /\ mem # NoHandle => C04_ExactAt(files, mem)
 
 \* C05 (pass direction): the integrity check passes at quiescent states
-C05_Pass == Quiescent /\ mem # NoHandle => Check(mem, files)
+C05_Pass == Pristine /\ Quiescent /\ mem # NoHandle => Check(mem, files)
 
 \* C08: continued writing is append-only
 C08_AppendOnlyAt(fs) ==
     \A s \in Splits : /\ NoDupSeq(ReadSplit(fs, s))
                       /\ SeqSet(ReadSplit(fs, s)) = CommittedIds(s)
-C08_AppendOnly == Quiescent => C08_AppendOnlyAt(files)
+C08_AppendOnly == Pristine /\ Quiescent => C08_AppendOnlyAt(files)
 
 \* C03 (write side): within one session (multi-writer: writers in argument order) write order is kept
 SessionSeq(s, k) == LET q == SelectSeq(wlog, LAMBDA w : w.acc /\ w.split = s /\ w.sess = k)
                         byPid == SortSeq(q, LAMBDA a, b : a.pid < b.pid \/ (a.pid = b.pid /\ a.id < b.id))
                     IN [i \in 1..Len(byPid) |-> byPid[i].id]
 C03_WriteOrderAt(fs) == \A s \in Splits : \A k \in done : IsSubSeq(SessionSeq(s, k), ReadSplit(fs, s))
-C03_WriteOrder == Quiescent => C03_WriteOrderAt(files)
+C03_WriteOrder == Pristine /\ Quiescent => C03_WriteOrderAt(files)
 
 \* C10: shard sizes
 ShardOfEx(fs, s, id) == LET es == ShardEntries(fs, s)
@@ -512,7 +543,7 @@ C10_SizeAt(fs) ==
                    => (a.n = EPS \/ \E m \in 1..Len(att) : /\ att[m].pid = q[i].pid
                                                            /\ q[i].id < att[m].id /\ att[m].id <= q[j].id
                                                            /\ MdChanged(a.md, att[m].md))
-C10_Size == Quiescent => C10_SizeAt(files)
+C10_Size == Pristine /\ Quiescent => C10_SizeAt(files)
 
 \* C11: an example written with metadata M lies in a shard recorded with M (value at the time of the write)
 C11_LabelAt(fs) ==
@@ -520,7 +551,7 @@ C11_LabelAt(fs) ==
        LET w == wlog[i] IN
        (w.acc /\ w.md # "None" /\ w.sess \in done)
        => LET e == ShardOfEx(fs, w.split, w.id) IN e # NoShard /\ e.md = w.md
-C11_Label == Quiescent => C11_LabelAt(files)
+C11_Label == Pristine /\ Quiescent => C11_LabelAt(files)
 
 \* C18: rejected writes leave no trace, accepted writes are all readable
 C18_AllOrNothingAt(fs) ==
@@ -529,7 +560,7 @@ C18_AllOrNothingAt(fs) ==
        /\ 0 \notin SeqSet(ReadSplit(fs, s))
        /\ CommittedIds(s) \subseteq SeqSet(ReadSplit(fs, s))
        /\ (s \in DOMAIN InfoSplits(fs) => fs[InfoPath].splits[s].n = Cardinality(CommittedIds(s)))
-C18_AllOrNothing == Quiescent => C18_AllOrNothingAt(files)
+C18_AllOrNothing == Pristine /\ Quiescent => C18_AllOrNothingAt(files)
 
 \* C06: crash consistency, in EVERY state (every state is a crash point)
 IsTmp(p) == Len(p[Len(p)]) >= 4 /\ SubSeq(p[Len(p)], 1, 4) = "tmp_"
@@ -614,9 +645,9 @@ Next ==
     \/ \E p \in P : ExitFiller(p)
     \/ SessionDone
     \/ \E K \in 1..MaxK : MultiBegin(K)
-    \/ MultiEnd \/ MultiDone
+    \/ MultiEnd \/ MultiDone \/ (\E j \in 1..MaxK : MultiAbort(j))
     \/ \E p \in P : FSStep(p)
-    \/ Crash
+    \/ Crash \/ Recover
     \/ Reader
 Spec == Init /\ [][Next]_vars
 
